@@ -58,19 +58,20 @@ static bool init_valid(const Model & m)
   // DBD
   if (!(m.mode >= 1 && m.mode <= 24)) return false;
   if (m.level == -1) return false;
-  if (m.has_max && !(m.emin < m.emax)) return false;
+  if (m.has_min && m.has_max && !(m.emin < m.emax)) return false; // a half-open window (one limit NaN) is a legal request
   if ((m.has_min || m.has_max) && !window_capable(m.mode)) return false;
   if (m.mode >= 21) return false; // gA data are not installed in this harness: unreadable resource
+  const double lo = std::max(m.has_min ? m.emin : 0.0, 0.0), hi = m.has_max ? m.emax : 1e9;
   if (m.iso == "Mo100") {
     if (m.mode == 1) return m.level == 0;
     if (m.mode == 3) return m.level == 0 || m.level == 1;
-    if (m.mode == 5) return m.level == 0 && (!m.has_max || std::max(m.emin, 0.0) < std::min(m.emax, 3.034));
+    if (m.mode == 5) return m.level == 0 && lo < std::min(hi, 3.034);
     return false;
   }
   if (m.iso == "Zn70") { // Q = 0.997 MeV, ground state only
     if (m.level != 0) return false;
     if (m.mode == 1 || m.mode == 3) return true;
-    if (m.mode == 5) return !m.has_max || std::max(m.emin, 0.0) < std::min(m.emax, 0.997);
+    if (m.mode == 5) return lo < std::min(hi, 0.997);
     return false;
   }
   return false;
@@ -116,6 +117,11 @@ static std::vector<Op> alphabet(bool with_expensive)
          [](Model & m) { m.has_min = m.has_max = true; m.emin = 0.25; m.emax = 0.75; });
   setter("set_decay_dbd_esum_range(2,1)", [](decay0_generator & G) { G.set_decay_dbd_esum_range(2.0, 1.0); },
          [](Model & m) { m.has_min = m.has_max = true; m.emin = 2.0; m.emax = 1.0; });
+  // half-open windows: one limit left undefined (NaN)
+  setter("set_decay_dbd_esum_range(0.5,NaN)", [](decay0_generator & G) { G.set_decay_dbd_esum_range(0.5, std::numeric_limits<double>::quiet_NaN()); },
+         [](Model & m) { m.has_min = true; m.has_max = false; m.emin = 0.5; m.emax = 0; });
+  setter("set_decay_dbd_esum_range(NaN,0.75)", [](decay0_generator & G) { G.set_decay_dbd_esum_range(std::numeric_limits<double>::quiet_NaN(), 0.75); },
+         [](Model & m) { m.has_min = false; m.has_max = true; m.emin = 0; m.emax = 0.75; });
   if (with_expensive) {
     setter("set_decay_isotope(Zn70)", [](decay0_generator & G) { G.set_decay_isotope("Zn70"); }, [](Model & m) { m.iso = "Zn70"; });
     setter("set_decay_dbd_mode(5)", [](decay0_generator & G) { G.set_decay_dbd_mode(bxdecay0::DBDMODE_5); }, [](Model & m) { m.mode = 5; });
@@ -140,7 +146,7 @@ static std::vector<Op> alphabet(bool with_expensive)
                    // the version string is filled in as soon as the request passes the configuration checks
                    bool reaches_init = m.cat != 0 && !m.iso.empty();
                    if (reaches_init && m.cat == 1) {
-                     reaches_init = (m.mode >= 1 && m.mode <= 24) && m.level != -1 && !(m.has_max && !(m.emin < m.emax))
+                     reaches_init = (m.mode >= 1 && m.mode <= 24) && m.level != -1 && !(m.has_min && m.has_max && !(m.emin < m.emax))
                                     && !((m.has_min || m.has_max) && !window_capable(m.mode));
                    }
                    if (reaches_init) m.version_set = true;
@@ -196,6 +202,9 @@ int main(int argc, char ** argv)
   uint64_t seed = argc > 1 ? strtoull(argv[1], 0, 10) : 1;
   int max_depth = argc > 2 ? atoi(argv[2]) : 5;
   bool with_exp = argc > 3 && atoi(argv[3]) != 0;
+  // the behavioural reset probes (expensive: two initialisations each) are shared out over processes; every process walks the whole model
+  const int pshard = argc > 4 ? atoi(argv[4]) : 0, pshards = argc > 5 ? atoi(argv[5]) : 1;
+  long probes = 0;
   std::vector<Op> ops = alphabet(with_exp);
   std::map<std::string, std::vector<int>> seq_of; // model state -> shortest op sequence
   std::deque<std::string> frontier;
@@ -262,6 +271,29 @@ int main(int argc, char ** argv)
           std::string d2 = getters_diff(*G, fm);
           if (!d2.empty()) fail("reset-not-fresh", s, d2);
           if (!(G->get_to_all_events() == fresh.get_to_all_events())) fail("reset-not-fresh", s, "get_to_all_events differs from a fresh object");
+          if ((before.has_min || before.has_max || before.nops || before.init) && (int)(hash_str(before.key()) % (uint64_t)pshards) == pshard) {
+            probes++;
+            // behavioural freshness, not through the getters: the same partial configuration (no window, no operation) applied to
+            // the reset object and to a fresh one must initialise alike and give the same ratio and the same first event
+            auto probe = [&](decay0_generator & X, std::string & out) {
+              return throws([&] {
+                X.set_decay_category(decay0_generator::DECAY_CATEGORY_DBD);
+                X.set_decay_isotope("Zn70");
+                X.set_decay_dbd_level(0);
+                X.set_decay_dbd_mode(bxdecay0::DBDMODE_5);
+                Tape t2(seed, 6);
+                X.initialize(t2);
+                bxdecay0::event e2;
+                X.shoot(t2, e2);
+                out = fmt("toallevents=%.17g draws=%zu ", X.get_to_all_events(), t2.pos) + event_json(e2);
+              });
+            };
+            std::string og, of;
+            bool tg = probe(*G, og), tf = probe(fresh, of);
+            if (tg != tf || og != of)
+              fail("reset-not-fresh", s, "after reset, configuring Zn70/0/mode 5 without a window gives " + (tg ? std::string("an exception") : og.substr(0, 120)) + "; a fresh object gives "
+                                           + (tf ? std::string("an exception") : of.substr(0, 120)));
+          }
         }
         if (!diverged && ops[s[k]].name == "initialize" && it && !before.init) {
           // a failed initialisation must leave the object usable: a corrected configuration initialises -
@@ -308,8 +340,8 @@ int main(int argc, char ** argv)
       }
     }
   }
-  fprintf(OUT, "{\"states\":%zu,\"transitions\":%ld,\"traces\":%ld,\"calls\":%ld,\"alphabet\":%zu,\"max_depth\":%d,\"sample\":%s,", seq_of.size(), transitions, traces, calls,
-          ops.size(), max_depth, jstr(sample).c_str());
+  fprintf(OUT, "{\"states\":%zu,\"transitions\":%ld,\"traces\":%ld,\"calls\":%ld,\"alphabet\":%zu,\"max_depth\":%d,\"reset_probes\":%ld,\"sample\":%s,", seq_of.size(), transitions, traces, calls,
+          ops.size(), max_depth, probes, jstr(sample).c_str());
   emit_mismatches(OUT, "mismatches", mm);
   fprintf(OUT, "}\n");
   return 0;
